@@ -10,6 +10,17 @@ BASE_NOTE = ('Trusted: Lean 4.33 kernel; axioms propext/Classical.choice/Quot.so
              'against the real code); floats idealised as exact rationals (deviation measured by the oracle pass).')
 
 CHECKS = {
+    'C04': dict(
+        text='Proof over the accounts model (mirrors SpotExchange/Order/Position branch by branch; tied by step-by-step '
+             'correspondence with the real objects): the resting-sells sums equal the sums over the active STOP/LIMIT sells '
+             'after EVERY history of accepted submissions, executions and cancellations (invariant), hence a sell is rejected '
+             'exactly when it plus the resting sells of its kind exceeds the base held and a buy exactly when its cost exceeds '
+             'the free quote; a buy reserves qty*price and cancelling releases exactly that; fills credit/debit as the cash '
+             'account; balances never negative. The no-short / position=base clause is false at operation level (witness '
+             'theorem + known finding C04-F1).',
+        technique='Lean 4 invariant over operation histories on a hand model; line-protocol correspondence with real SpotExchange; exact cash-account oracle',
+        ref='4 (C04)',
+        note='One traded symbol in the theorems; position=base holds only when no sell executes on a closed position (C04-F1).'),
     'C07': dict(
         text='Proof: the GENERATED generate_candle_from_one_minutes is the aggregation (window start, first open, last close, '
              'max high, min low, summed volume) for every non-empty list; the GENERATED gap normalisation only moves the open '
